@@ -279,7 +279,9 @@ JudgeDecapQ(e, rx, q, crc) ==
              \* rejected start/complete packet whose label field is readable
              (IF w.lt = "ru" THEN rx.adm \cup {NoLabel}
               ELSE IF w.lt = "bc" THEN {NoLabel, Broadcast}
-              ELSE IF w.ok THEN {NoLabel, wireLabel}
+              \* a delimited start/complete packet whose label is known - also when it is dropped for an unknown
+              \* mandatory extension - is "the nearest preceding start or complete packet" from now on
+              ELSE IF w.ok \/ w.why = "unknown_mandatory" THEN {NoLabel, [k |-> w.lt, b |-> w.label]}
               ELSE rx.adm \cup {NoLabel, [k |-> w.lt, b |-> SubSeq(p, IF kind = "first" THEN 8 ELSE 5, (IF kind = "first" THEN 7 ELSE 4) + LtLen(w.lt))]})
         ELSE rx.adm \cup {NoLabel}
       newGhost ==
